@@ -417,7 +417,7 @@ def C01_full : Prop :=
 
 /-- **The page is the in-order composition of the instances' outputs, at any nesting depth** (the clause of C01 about
 composition, for the model of the code, on trees of components without fills): `{% component %}` tags with empty bodies
-nested through templates to any depth, in loops, recursively.  `ComponentNode.render` returns a placeholder for every
+nested through templates to any depth, in loops, recursively, their templates holding unfilled `{% slot %}` tags too.  `ComponentNode.render` returns a placeholder for every
 nested instance and queues a renderer; the `while` loop of `component_post_render` — a deque of (text-before, child,
 parent, grand-parent) items and a dict of partial outputs — puts each instance's tokens exactly where its tag stood:
 the result is `Exp [placeholder of the root]`, the recursive substitution of every placeholder by its instance's own
@@ -438,5 +438,24 @@ the expected in-order token list -/
 example : Djc.Proofs.Tree.GoodLib (Djc.Proofs.Tree.exEnv false) ∧ Djc.Proofs.Tree.WInv ({} : World) ∧
     Djc.Proofs.Stitch.exOutputOk = true :=
   ⟨Djc.Proofs.Tree.exEnv_good false, Djc.Proofs.Tree.empty_world_inv, by decide +kernel⟩
+
+/-- **A slot no fill was given for renders its own default content — in every instance of a tree, at any depth.**  In any
+world a render of the tree fragment can reach (`WInv`: every `ComponentContext` entry was made by a tag with an empty
+body), `SlotNode.render` of a slot not flagged `default` either raises without touching the world (no enclosing
+component, its entry gone, an unhashable name, `required`, the data-nesting budget), prints nothing (while a component
+body is read for fills), or *is* the render of the slot's own default content `body` in a context in which every name a
+template can use — every name except `component_vars` — resolves exactly as at the slot tag.  (`component_vars` is the
+exception the listed finding `django-slot-owner-override` is about.) -/
+theorem unfilled_slot_renders_its_default_content_in_trees (env : Env) (fuel : Nat) (nameE : Expr) (isRequired : Bool)
+    (data : List (Str × Expr)) (body : List Node) (ctx : Ctx) (w : World)
+    (hc : Djc.Proofs.Plain.ctxFree ctx = true) (hw : Djc.Proofs.Tree.WInv w) :
+    (∃ e, (renderSlot env (fuel + 1) nameE false isRequired data body ctx).run.run w = (.error e, w)) ∨
+    (renderSlot env (fuel + 1) nameE false isRequired data body ctx).run.run w = (.ok [], w) ∨
+    (∃ c3, (∀ k, Djc.Proofs.Calm.internal k = false → k ≠ compVarsKey → ctxGet c3 k = ctxGet ctx k) ∧
+      (renderSlot env (fuel + 1) nameE false isRequired data body ctx).run.run w = (renderNodes env fuel body c3).run.run w) := by
+  rcases Djc.Proofs.Tree.slot_unfolds env fuel nameE isRequired data body ctx w hc hw with h | h | ⟨c3, _, h2, h3⟩
+  · exact Or.inl h
+  · exact Or.inr (Or.inl h)
+  · exact Or.inr (Or.inr ⟨c3, h2, h3⟩)
 
 end Djc.Props.C01
